@@ -48,13 +48,17 @@ def _scripts(alphabet, maxlen):
 def _cases(th):
     dalpha = 'gcte4' if th else 'gce4'
     sizes = [0, 1, 1023, 1024, 1025, 2048, 5000] if th else [5000]
+    k = 0
     for size in sizes:
         L = 4 if (th and size == 1024) else 3
         for ds in _scripts(dalpha, L):
             cks = [('const', c) for c in 'owm'] + [('script', s) for s in _scripts('owm', 3)]
             for ckind, ck in cks:
                 for prior in ('absent', 'valid', 'corrupt'):
-                    yield {'data': ds, 'ck': ck, 'ckind': ckind, 'prior': prior, 'size': size}
+                    k += 1
+                    # the checksum file is served as text/plain or as application/octet-stream
+                    yield {'data': ds, 'ck': ck, 'ckind': ckind, 'prior': prior, 'size': size,
+                           'ctype': k % 2}
 
 
 def drivers(tier):
@@ -153,10 +157,11 @@ def check(case):
             a = ck[seen['ck_i']] if seen['ck_i'] < len(ck) else 'm'
             seen['ck_i'] += 1
         seen['last_md5'] = a
+        hdr = {'Content-Type': 'application/octet-stream'} if case.get('ctype') else {}
         if a == 'o':
-            return (200, {}, md5_good + '  file.bin\n')
+            return (200, hdr, md5_good + '  file.bin\n')
         if a == 'w':
-            return (200, {}, '0' * 32 + '  file.bin\n')
+            return (200, hdr, '0' * 32 + '  file.bin\n')
         return (404, {}, 'not found')
 
     with env.scratch() as d:
